@@ -486,6 +486,8 @@ def _dict_dearray_decomp(data):
         # Convert arrays to lists.
         if isinstance(value, np.ndarray):
             key += '__array-'+value.dtype.name
+            if value.size == 0:  # Nested empty lists loose the shape.
+                key += '-'+'x'.join(str(n) for n in value.shape)
             value = value.tolist()
 
         # Convert numpy ints.
@@ -537,8 +539,10 @@ def _dict_array_comp(data):
         # Get arrays back.
         if '__array' in key:
             arraytype = key.split('__')[-1]
-            dtype = getattr(np, arraytype[6:])
-            value = np.asarray(value, dtype=dtype, order='F')
+            dtype, *shape = arraytype[6:].split('-')
+            value = np.asarray(value, dtype=getattr(np, dtype), order='F')
+            if shape:
+                value = value.reshape([int(n) for n in shape[0].split('x')])
             key = key.replace(key[-len(arraytype)-2:], '')
 
         # Compose complex numbers.
